@@ -190,6 +190,22 @@ def word(i: int) -> str:
 
 # probes used only where a check asks for them by name (build(..., force={file number: probe name}))
 EXTRA_PROBES = {
+    # one file that holds the same statements twice: a cross-file rule has evidence within a single file
+    "selfdup": ("py", '''def first@(rows@):
+    total@ = 0
+    for row@ in rows@:
+        total@ += row@.amount
+        total@ -= row@.discount
+    return total@ * 2
+
+
+def second@(rows@, extra@):
+    total@ = 0
+    for row@ in rows@:
+        total@ += row@.amount
+        total@ -= row@.discount
+    return total@ * 2 + extra@
+'''),
     # several findings of one rule on ONE line (TypeScript findings carry column 0: they differ in nothing but the message)
     "tstwins": ("ts", '''export function perDay@(n@: number): number {
   const total@ = n@ * 3600 * 24;
